@@ -280,7 +280,10 @@ def run(ctx):
     lres = late_fut.result()
     for f in lres["failures"]:
         if f["class"] == "modes/late-registration/scenario-not-reached":
-            raise Infra("modes-late: %s" % f["detail"])
+            # the forced schedule relies on the code's disconnection path; a tree on which it cannot be set up is
+            # judged by the other parts of the check, not stopped here
+            ctx.extra["modes_late_not_reached"] = f["detail"][:300]
+    lres["failures"] = [f for f in lres["failures"] if f["class"] != "modes/late-registration/scenario-not-reached"]
     ctx.failures_scoped(lres["failures"], scope)
     ctx.traces += lres["evaluations"]
     reproduced = (lres.get("fail_count") or {}).get(LATE_CLASS, 0)
